@@ -212,3 +212,19 @@ Proof.
     try (apply C04_sphere; lra).
   exists (V 1 0 0). split; apply sphere_set_iff; vunfold; cbn [vx vy vz]; lra.
 Qed.
+
+(** ** per-input verdicts: soundness of the certificate checker the harness evaluates with
+       vm_compute on the exact rationals of the implementation's box ([sem S] is the point set
+       of the shape expression, the six witnesses are untrusted) *)
+From Coq Require Import Qreals.
+From D3 Require Checker.Shapes Checker.ShapesCert.
+Local Open Scope R_scope.
+Theorem C04_aabb_cert_sound S ws lo hi_ tau :
+  ShapesCert.aabb_cert S ws lo hi_ tau = true ->
+  forall k, (k < 3)%nat ->
+  (forall x, Checker.Shapes.sem S x ->
+     nthv (Checker.Shapes.v2r lo) k - Q2R tau <= nthv x k <= nthv (Checker.Shapes.v2r hi_) k + Q2R tau) /\
+  (exists q, Checker.Shapes.sem S q /\ nthv (Checker.Shapes.v2r hi_) k - Q2R tau <= nthv q k) /\
+  (exists q, Checker.Shapes.sem S q /\ nthv q k <= nthv (Checker.Shapes.v2r lo) k + Q2R tau).
+Proof. exact (ShapesCert.aabb_cert_sound S ws lo hi_ tau). Qed.
+Print Assumptions C04_aabb_cert_sound.
